@@ -83,10 +83,27 @@ class QueryJudge:
                 # theorem's statement) is wrong - machinery trouble, not a verdict about the implementation
                 rep.notes.append(f"model!=spec inside hypotheses on {case['id']}: {surface.case_sexp(case)[:400]}")
                 rep.count('MODEL_NE_SPEC_INSIDE_HYPOTHESES')
+        l2 = drv.get('l2') if (case.get('quant') != 'the' and not case.get('forall') and not case.get('pform')) else None
         for cfg_name, cfg in res['impl'].items():
             rep.count('cache_hits_' + cfg_name, cfg['hits'])
             for ev, out in enumerate(cfg['outs']):
                 rep.traces += 1
+                # Tier A for the stateful layer: the L2 machine (caches + duplicate tracking) must give the
+                # implementation's rows under the same configuration and evaluation number
+                m2 = None
+                if l2 is not None and out[0] == 'rows' and ev < 2:
+                    m2 = l2['on' if cfg_name.startswith('on') else 'off'][ev]
+                    if sorted(out[1]) == sorted(m2):
+                        rep.count('l2_exact')
+                    elif sorted(set(out[1])) == sorted(set(m2)):
+                        rep.count('l2_multiplicity_drift')      # same rows, other multiplicities: reported only
+                    else:
+                        rep.count('l2_rows_differ')
+                        if canon(out[1], case, self.ordered) == want:
+                            # the implementation is right and the machine is not: the machine misrepresents it
+                            rep.corr_disagreements.append({'case': surface.case_sexp(case), 'config': cfg_name,
+                                                           'evaluation': ev + 1, 'impl': sorted(out[1]),
+                                                           'l2_model': sorted(m2)})
                 if out[0] == 'exc':
                     self.violation(f'implementation raised {out[1]}: {out[2]} (caching {cfg_name}, evaluation {ev + 1})',
                                    case, expected=want)
@@ -101,13 +118,20 @@ class QueryJudge:
                 if emptydom and obs == model_obs and self.known('C02-F1'):
                     continue
                 off_name = cfg_name.replace('on', 'off', 1)
-                if cfg_name.startswith('on') and self.use_c05 and cfg['nonuniform'] and off_name in res['impl'] and \
+                if cfg_name.startswith('on') and self.use_c05 and off_name in res['impl'] and \
                         all(canon(o[1], case, self.ordered) == want for o in res['impl'][off_name]['outs']
-                            if o[0] == 'rows') and self.known('C05-F1'):
-                    continue
+                            if o[0] == 'rows'):
+                    # wrong with caching on, right with caching off: a known cache finding only if the L2 machine,
+                    # which transliterates the cache code, returns exactly the implementation's rows (or, where the
+                    # machine does not apply, if a cache was observed non-prefix-uniform at a lookup)
+                    reproduced = (m2 is not None and sorted(set(out[1])) == sorted(set(m2))) or \
+                                 (m2 is None and cfg['nonuniform'])
+                    if reproduced and self.known('C05-F1'):
+                        continue
                 if cfg_name.startswith('on') and off_name in res['impl'] and mentions_flatten(case) and \
                         all(canon(o[1], case, self.ordered) == want for o in res['impl'][off_name]['outs']
-                            if o[0] == 'rows') and self.known('C05-F2'):
+                            if o[0] == 'rows') and \
+                        (m2 is None or sorted(set(out[1])) == sorted(set(m2))) and self.known('C05-F2'):
                     continue
                 self.violation(f'rows differ from the specification (caching {cfg_name}, evaluation {ev + 1})',
                                case, expected=want, observed=obs, model=model_obs,
